@@ -38,7 +38,7 @@ Definition xexec (md : mode) (c : cfg) (a : acc) (x : xstep) : acc :=
   let s := a_s a in
   let upd_s s' ok' := {| a_s := s'; a_ok := a_ok a && ok'; a_hist := a_hist a; a_agree := a_agree a; a_spec := a_spec a |} in
   match x with
-  | XS y => upd_s (step_fn c s y) (step_ok s y)
+  | XS y => upd_s (step_fn c s y) (step_ok s y && mu_ok s y)      (* the code's mutex admits the step *)
   | XTry y => upd_s (step_fn c s y) true
   | XSnapRest => let (s', ok) := exec c (s, true) HSnapRest in upd_s s' ok
   | XReplaceAll => let (s', ok) := exec c (s, true) HReplaceAll in upd_s s' ok
@@ -46,8 +46,12 @@ Definition xexec (md : mode) (c : cfg) (a : acc) (x : xstep) : acc :=
       let ss := filter (fun sr => kmem sr (listed (sv s))) req in
       if is_nil ss then a
       else
+        (* deleteSeriesRange under Engine.snapshotMu: a snapshot retained by a failed flush is
+           written out first; a snapshot in flight would hold the delete back (not ok) *)
+        let s := if snap_retained s
+                 then fst (exec c (step_fn c s SnapBegin, true) HSnapRest) else s in
         let s1 := step_fn c s (DeleteBegin ss lo hi) in
-        let ok1 := step_ok s (DeleteBegin ss lo hi) in
+        let ok1 := step_ok s (DeleteBegin ss lo hi) && mu_ok s (DeleteBegin ss lo hi) in
         let s2 := tomb_all c s1 in
         let s3 := step_fn c s2 DeleteCache in
         let s4 := step_fn c s3 WalSync in
